@@ -127,7 +127,7 @@ fn cells(v: &[SqliteValue]) -> Vec<String> {
 }
 
 fn emit_count(id: &str) -> usize {
-    vh::vnode::emit_count("matcher.batch_done", id)
+    vh::vnode::emit_count("matcher.batch_done.big", id)
 }
 
 async fn barrier(sub: &Sub) {
